@@ -90,7 +90,7 @@ var rec *recorder
 func newRecorder(prop string) *recorder {
 	return &recorder{Property: prop, Shard: os.Getenv("VERIF_SHARD"),
 		Classes: map[string]int{}, Unspecified: map[string]int{}, Skipped: map[string]int{}, Known: map[string]int{},
-		hashes: map[uint64]struct{}{}}
+		hashes: map[uint64]struct{}{}, Samples: []json.RawMessage{}, Notes: []string{}}
 }
 
 func hashBytes(b []byte) uint64 {
@@ -355,6 +355,9 @@ func copyMap(m map[string]interface{}) map[string]interface{} {
 func canon(v interface{}) string {
 	b, err := json.Marshal(v)
 	if err != nil {
+		if strings.Contains(err.Error(), "cycle") {
+			return "<cyclic value: " + err.Error() + ">"
+		}
 		return fmt.Sprintf("%#v", v)
 	}
 	return string(b)
